@@ -24,6 +24,8 @@ pub static CRASH_BEFORE_IO: AtomicU64 = AtomicU64::new(0); // 0 = none
 pub static CRASH_AFTER_IO: AtomicU64 = AtomicU64::new(0);
 pub static LOG_READS: AtomicBool = AtomicBool::new(false);
 pub static CAPTURE_DATA: AtomicBool = AtomicBool::new(true);
+pub static LOG_TID: AtomicBool = AtomicBool::new(false);
+static TIDS: Mutex<Vec<i64>> = Mutex::new(Vec::new());
 
 #[derive(Clone, Debug)]
 pub struct IoFault {
@@ -52,9 +54,50 @@ pub fn init(root: &str, faults: Vec<IoFault>) {
 
 // ------------------------------------------------------------------ raw helpers
 
+/// Raw x86_64 syscall (no libc involved: this binary also defines the libc symbol `syscall`).
+#[inline(always)]
+pub unsafe fn raw6(n: c_long, a1: usize, a2: usize, a3: usize, a4: usize, a5: usize, a6: usize) -> isize {
+    let ret: isize;
+    unsafe {
+        core::arch::asm!(
+            "syscall",
+            inlateout("rax") n as isize => ret,
+            in("rdi") a1, in("rsi") a2, in("rdx") a3, in("r10") a4, in("r8") a5, in("r9") a6,
+            lateout("rcx") _, lateout("r11") _,
+            options(nostack)
+        );
+    }
+    ret
+}
+
+/// libc-style result: -1 and errno on failure.
 #[inline]
-unsafe fn sc(n: c_long, a: usize, b: usize, c: usize, d: usize, e: usize) -> isize {
-    unsafe { libc::syscall(n, a, b, c, d, e) as isize }
+pub unsafe fn sc(n: c_long, a: usize, b: usize, c: usize, d: usize, e: usize) -> isize {
+    let r = unsafe { raw6(n, a, b, c, d, e, 0) };
+    if r < 0 && r >= -4095 {
+        set_errno((-r) as c_int);
+        return -1;
+    }
+    r
+}
+
+pub fn gettid() -> i64 {
+    unsafe { raw6(libc::SYS_gettid, 0, 0, 0, 0, 0, 0) as i64 }
+}
+
+/// The libc `syscall(2)` wrapper. Crates that fetch entropy with `syscall(SYS_getrandom, ..)`
+/// (getrandom 0.2, hence rand::thread_rng) end up here; everything else is forwarded unchanged.
+#[unsafe(no_mangle)]
+pub unsafe extern "C" fn syscall(num: c_long, a1: usize, a2: usize, a3: usize, a4: usize, a5: usize, a6: usize) -> c_long {
+    if num == libc::SYS_getrandom {
+        return unsafe { getrandom(a1 as *mut c_void, a2, a3 as c_uint) } as c_long;
+    }
+    let r = unsafe { raw6(num, a1, a2, a3, a4, a5, a6) };
+    if r < 0 && r >= -4095 {
+        set_errno((-r) as c_int);
+        return -1;
+    }
+    r as c_long
 }
 
 pub fn raw_write_all(fd: c_int, mut buf: &[u8]) {
@@ -79,7 +122,7 @@ pub fn log_line(s: &str) {
 }
 
 pub fn die(code: c_int) -> ! {
-    unsafe { libc::syscall(libc::SYS_exit_group, code as usize) };
+    unsafe { raw6(libc::SYS_exit_group, code as usize, 0, 0, 0, 0, 0) };
     loop {}
 }
 
@@ -151,6 +194,21 @@ fn io_event(seam: &mut Seam, op: &str, rel: &str, size: i64, data: Option<&[u8]>
         }
     }
     let mut line = format!("{{\"t\":\"io\",\"k\":{},\"op\":{},\"path\":{}", k, jstr(op), jstr(rel));
+    if LOG_TID.load(Ordering::Relaxed) {
+        let tid = gettid();
+        let mut tids = TIDS.lock().unwrap();
+        let ix = match tids.iter().position(|t| *t == tid) {
+            Some(i) => i,
+            None => {
+                tids.push(tid);
+                tids.len() - 1
+            }
+        };
+        drop(tids);
+        use std::hash::BuildHasher;
+        let hp = std::collections::hash_map::RandomState::new().hash_one(0u64);
+        line.push_str(&format!(",\"tid\":{},\"gr\":{},\"hp\":{}", ix, GETRANDOM_CALLS.load(Ordering::Relaxed), hp % 100000));
+    }
     if size >= 0 {
         line.push_str(&format!(",\"n\":{}", size));
     }
@@ -257,6 +315,105 @@ fn armed() -> bool {
     ARMED.load(Ordering::Relaxed)
 }
 
+pub static RT_TID: AtomicI64 = AtomicI64::new(0);
+pub static RT_PARKED: AtomicBool = AtomicBool::new(false);
+pub static PARK_WAITS: AtomicU64 = AtomicU64::new(0);
+pub static PARK_TIMEOUTS: AtomicU64 = AtomicU64::new(0);
+
+/// Serialise the blocking-pool thread against the runtime thread: a mutating I/O event issued by any
+/// thread other than the runtime thread proceeds only while the runtime thread is parked (it has run
+/// every ready task to exhaustion). This removes the only real concurrency left in the node, so the
+/// order of I/O events, gate arrivals and log lines is a pure function of the plan.
+pub static CONFIRMED: AtomicBool = AtomicBool::new(false);
+static PROC_FD: AtomicI32 = AtomicI32::new(-1);
+
+/// True when the kernel reports the runtime thread blocked inside epoll_wait/epoll_pwait.
+fn runtime_in_epoll() -> bool {
+    let mut fd = PROC_FD.load(Ordering::Relaxed);
+    if fd < 0 {
+        let path = format!("/proc/self/task/{}/syscall\0", RT_TID.load(Ordering::Relaxed));
+        fd = unsafe { sc(libc::SYS_openat, libc::AT_FDCWD as usize, path.as_ptr() as usize, libc::O_RDONLY as usize, 0, 0) as c_int };
+        if fd < 0 {
+            return true; // cannot tell: fall back to the flag alone
+        }
+        PROC_FD.store(fd, Ordering::Relaxed);
+    }
+    let mut buf = [0u8; 64];
+    let n = unsafe { sc(libc::SYS_pread64, fd as usize, buf.as_mut_ptr() as usize, buf.len(), 0, 0) };
+    if n <= 0 {
+        return true;
+    }
+    let s = &buf[..n as usize];
+    // syscall numbers on x86_64: 232 epoll_wait, 281 epoll_pwait, 441 epoll_pwait2
+    s.starts_with(b"232 ") || s.starts_with(b"281 ") || s.starts_with(b"441 ")
+}
+
+fn wait_turn() {
+    let me = gettid();
+    if me == RT_TID.load(Ordering::Relaxed) || RT_TID.load(Ordering::Relaxed) == 0 {
+        return;
+    }
+    if RT_PARKED.load(Ordering::SeqCst) && CONFIRMED.load(Ordering::SeqCst) {
+        return;
+    }
+    PARK_WAITS.fetch_add(1, Ordering::Relaxed);
+    let mut spins: u64 = 0;
+    loop {
+        if RT_PARKED.load(Ordering::SeqCst) && runtime_in_epoll() && RT_PARKED.load(Ordering::SeqCst) {
+            CONFIRMED.store(true, Ordering::SeqCst);
+            return;
+        }
+        spins += 1;
+        if spins < 100 {
+            unsafe { raw6(libc::SYS_sched_yield, 0, 0, 0, 0, 0, 0) };
+        } else {
+            let ts = libc::timespec { tv_sec: 0, tv_nsec: 20_000 };
+            unsafe { raw6(libc::SYS_nanosleep, &ts as *const libc::timespec as usize, 0, 0, 0, 0, 0) };
+        }
+        if spins > 100 + 100_000 {
+            PARK_TIMEOUTS.fetch_add(1, Ordering::Relaxed);
+            log_line("{\"t\":\"harness-error\",\"msg\":\"park wait timeout\"}");
+            return;
+        }
+    }
+}
+
+static EVENTFDS: Mutex<Vec<c_int>> = Mutex::new(Vec::new());
+
+/// tokio/mio wake the runtime thread through an eventfd. Record those descriptors so that a wake-up
+/// sent by another thread can flip RT_PARKED at once (closing the window between the signal and the
+/// runtime thread's own on_thread_unpark callback).
+#[unsafe(no_mangle)]
+pub unsafe extern "C" fn eventfd(initval: c_uint, flags: c_int) -> c_int {
+    let fd = unsafe { sc(libc::SYS_eventfd2, initval as usize, flags as usize, 0, 0, 0) as c_int };
+    if fd >= 0 {
+        EVENTFDS.lock().unwrap().push(fd);
+    }
+    fd
+}
+
+fn note_wakeup(fd: c_int) {
+    let me = gettid();
+    if me != RT_TID.load(Ordering::Relaxed) && EVENTFDS.lock().unwrap().contains(&fd) {
+        RT_PARKED.store(false, Ordering::SeqCst);
+        CONFIRMED.store(false, Ordering::SeqCst);
+    }
+}
+
+fn path_is_tracked(dirfd: c_int, path: *const c_char) -> bool {
+    let Some(ps) = cpath(path) else { return false };
+    let g = SEAM.lock().unwrap();
+    let Some(seam) = g.as_ref() else { return false };
+    let Some(full) = resolve_at(seam, dirfd, &ps) else { return false };
+    tracked(seam, &full).is_some()
+}
+
+fn fd_is_tracked(fd: c_int) -> bool {
+    let g = SEAM.lock().unwrap();
+    let Some(seam) = g.as_ref() else { return false };
+    fd_rel(seam, fd).is_some()
+}
+
 // ------------------------------------------------------------------ clock + entropy
 
 #[unsafe(no_mangle)]
@@ -297,13 +454,23 @@ pub unsafe extern "C" fn time(t: *mut libc::time_t) -> libc::time_t {
 }
 
 pub static GETRANDOM_CALLS: AtomicU64 = AtomicU64::new(0);
+pub static ENTROPY_SALT: AtomicU64 = AtomicU64::new(0);
 
 #[unsafe(no_mangle)]
 pub unsafe extern "C" fn getrandom(buf: *mut c_void, len: usize, _flags: c_uint) -> isize {
-    GETRANDOM_CALLS.fetch_add(1, Ordering::Relaxed);
+    let call = GETRANDOM_CALLS.fetch_add(1, Ordering::Relaxed);
     let b = buf as *mut u8;
+    // splitmix64 stream keyed by the call number: reproducible, but successive requests differ
+    let mut x: u64 = 0x9E3779B97F4A7C15u64.wrapping_mul(call.wrapping_add(1)) ^ ENTROPY_SALT.load(Ordering::Relaxed);
     for i in 0..len {
-        unsafe { *b.add(i) = (0x5a ^ (i as u8).wrapping_mul(31)) as u8 };
+        if i % 8 == 0 {
+            x = x.wrapping_add(0x9E3779B97F4A7C15);
+            let mut z = x;
+            z = (z ^ (z >> 30)).wrapping_mul(0xBF58476D1CE4E5B9);
+            z = (z ^ (z >> 27)).wrapping_mul(0x94D049BB133111EB);
+            x = z ^ (z >> 31);
+        }
+        unsafe { *b.add(i) = (x >> ((i % 8) * 8)) as u8 };
     }
     len as isize
 }
@@ -318,6 +485,9 @@ unsafe fn do_open(dirfd: c_int, path: *const c_char, flags: c_int, mode: libc::m
     };
     if !armed() {
         return real(path);
+    }
+    if flags & WRITE_FLAGS != 0 && path_is_tracked(dirfd, path) {
+        wait_turn();
     }
     let Some(ps) = cpath(path) else { return real(path) };
     let mut g = SEAM.lock().unwrap();
@@ -411,6 +581,11 @@ unsafe fn do_write(fd: c_int, buf: *const c_void, n: usize, off: Option<i64>) ->
     if !armed() || fd == LOG_FD.load(Ordering::Relaxed) {
         return real(n);
     }
+    if fd_is_tracked(fd) {
+        wait_turn();
+    } else {
+        note_wakeup(fd);
+    }
     let mut g = SEAM.lock().unwrap();
     let Some(seam) = g.as_mut() else { return real(n) };
     let Some(rel) = fd_rel(seam, fd) else { return real(n) };
@@ -486,6 +661,9 @@ unsafe fn path_op(
     if !armed() {
         return real();
     }
+    if path_is_tracked(dirfd, path) {
+        wait_turn();
+    }
     let Some(ps) = cpath(path) else { return real() };
     let mut g = SEAM.lock().unwrap();
     let Some(seam) = g.as_mut() else { return real() };
@@ -545,6 +723,9 @@ unsafe fn do_rename(odfd: c_int, old: *const c_char, ndfd: c_int, new: *const c_
     if !armed() {
         return real();
     }
+    if path_is_tracked(odfd, old) || path_is_tracked(ndfd, new) {
+        wait_turn();
+    }
     let (Some(o), Some(n)) = (cpath(old), cpath(new)) else { return real() };
     let mut g = SEAM.lock().unwrap();
     let Some(seam) = g.as_mut() else { return real() };
@@ -583,6 +764,9 @@ pub unsafe extern "C" fn renameat2(odfd: c_int, old: *const c_char, ndfd: c_int,
 unsafe fn fd_op(op: &str, fd: c_int, size: i64, real: &dyn Fn() -> isize) -> isize {
     if !armed() {
         return real();
+    }
+    if fd_is_tracked(fd) {
+        wait_turn();
     }
     let mut g = SEAM.lock().unwrap();
     let Some(seam) = g.as_mut() else { return real() };
